@@ -21,10 +21,11 @@ Proof. reflexivity. Qed.
 
 Inductive hstep (st : option value) (h : list (nat * op * res)) : option value -> list (nat * op * res) -> Prop :=
 | hs_same : hstep st h st h
-| hs_op i o : hstep st h (fst (spec_op st o)) ((i, o, snd (spec_op st o)) :: h).
+| hs_op i o : hstep st h (fst (spec_op st o)) ((i, o, snd (spec_op st o)) :: h)
+| hs_exp i k r : exp_res_ok st r -> hstep st h st ((i, OSetExp k, r) :: h).
 
 Lemma hstep_lin init h st st' h' : linearized init h st -> hstep st h st' h' -> linearized init h' st'.
-Proof. intros Hl Hs. destruct Hs; [exact Hl|constructor; exact Hl]. Qed.
+Proof. intros Hl Hs. destruct Hs; [exact Hl|constructor; exact Hl|apply lin_exp; assumption]. Qed.
 
 Section Lock.
   Variable T : tables.
@@ -33,6 +34,7 @@ Section Lock.
   Hypothesis Hfn : fix_setnx c = true.
   Hypothesis Hwb : fix_wb c = true.
   Hypothesis Hfl : fix_list c = true.
+  Hypothesis Hexp : exp_locked c = true.       (* SetExpiration holds the key lock from its read to its write *)
   Variable k : kbytes.
   Let ct := cache_tier_for_key T c k.
 
@@ -41,7 +43,7 @@ Section Lock.
   Lemma ct_ne' : TPers <> ct.
   Proof. intros H. apply ct_ne. now symmetry. Qed.
 
-  Definition kv_like (o : op) : bool := match o with OSet _ _ | OGet _ | ODel _ | OAppend _ _ | ORemove _ _ => true | _ => false end.
+  Definition kv_like (o : op) : bool := match o with OSet _ _ | OGet _ | ODel _ | OAppend _ _ | ORemove _ _ | OSetExp _ => true | _ => false end.
   Definition lop_ok (o : op) : Prop := op_key o = k /\ (two_tier T c k = true -> kv_like o = true).
   Definition reads_list (o : op) : bool := match o with OGet _ | OAppend _ _ | ORemove _ _ => true | _ => false end.
 
@@ -61,6 +63,7 @@ Section Lock.
     | true, PSetStart k' v, Some o => k' = k /\ lop_ok o /\ is_list_op o = true /\ cview st C /\ pview st P /\ spec_op st o = (Some v, ROk)
     | true, PSetCache k' v ct', Some o => k' = k /\ ct' = ct /\ lop_ok o /\ two_tier T c k = true /\ P = Some v /\ cview st C /\ spec_op st o = (Some v, ROk)
     | true, PDelPers k' false, Some (ODel k'') => k' = k /\ k'' = k /\ two_tier T c k = true /\ C = None /\ P = st
+    | true, PExpSet k' ct' v, Some (OSetExp k'') => k' = k /\ ct' = ct /\ k'' = k /\ C = Some v /\ cview st C /\ pview st P
     | _, _, _ => False
     end.
 
@@ -165,6 +168,31 @@ Section Lock.
       + destruct (Hfr eq_refl) as (E1 & E2 & E3). cbn. rewrite Hl. auto.
   Qed.
 
+  Lemma finish_post_exp cl w w0 st r :
+    cur cl = Some (OSetExp k) -> faults cl = [] -> Forall lop_ok (ops cl) ->
+    w_hist w0 = w_hist w -> w_spawned w0 = w_spawned w -> w_locks w0 k = w_locks w k ->
+    exp_res_ok st r -> cview st (tget w0 ct k) ->
+    (held cl = true -> pview st (tget w0 TPers k)) ->
+    (held cl = false -> tget w0 ct k = tget w ct k /\ tget w0 TPers k = tget w TPers k) ->
+    forall h, held cl = h -> post h w st (finish cl w0 r).
+  Proof.
+    intros Hcur Hf Hops Hh Hs Hl Hr Hcv Hpv Hfr h <-. unfold post, finish. rewrite Hcur. unfold cur_key. rewrite Hcur. cbn [fst snd op_key].
+    exists st.
+    assert (Et : forall t, tget (if held cl then set_lock (add_hist w0 (me cl, OSetExp k, r)) k false
+                                 else add_hist w0 (me cl, OSetExp k, r)) t k = tget w0 t k).
+    { intros t. destruct (held cl); rewrite ?tget_set_lock, tget_add_hist; reflexivity. }
+    rewrite !Et. split; [|split; [|split; [|split]]].
+    - replace (w_hist (if held cl then _ else _)) with ((me cl, OSetExp k, r) :: w_hist w).
+      + constructor. exact Hr.
+      + destruct (held cl); cbn; rewrite Hh; reflexivity.
+    - unfold cinv. cbn. auto.
+    - exact Hcv.
+    - destruct (held cl); cbn; exact Hs.
+    - unfold trans. cbn [held]. destruct (held cl) eqn:Eh.
+      + split; [apply locks_set_same|apply Hpv; reflexivity].
+      + destruct (Hfr eq_refl) as (E1 & E2). cbn. rewrite Hl. auto.
+  Qed.
+
   Lemma setpc_post cl w w0 st p' :
     w_hist w0 = w_hist w -> w_spawned w0 = w_spawned w -> w_locks w0 k = w_locks w k ->
     cinv (set_pc cl p') st (tget w0 ct k) (tget w0 TPers k) -> cview st (tget w0 ct k) ->
@@ -210,7 +238,7 @@ Section Lock.
     assert (Hgo : forall v, is_list_op o = true -> spec_op st o = (Some v, ROk) -> post (held cl) w st (set_pc cl (PSetStart k v), w0)).
     { intros v Hli Hsp. apply setpc_post; auto. unfold cinv. cbn [set_pc held cpc cur faults ops]. rewrite (Hlh Hli), Hcur.
       split; [exact Hf|split; [exact Hops|]]. repeat split; auto. }
-    unfold get_done. rewrite Hcur. destruct o as [k0 v|k0|k0|k0|k0 x|k0 x|k0|k0 v]; cbn in Hrl, Hk; try discriminate; subst k0.
+    unfold get_done. rewrite Hcur. destruct o as [k0 v|k0|k0|k0|k0 x|k0 x|k0|k0 v|k0]; cbn in Hrl, Hk; try discriminate; subst k0.
     - apply Hfin. reflexivity.
     - unfold list_go_on. rewrite Hfl. destruct st as [[n|l|n]|]; cbn [val_res]; first [apply Hfin; reflexivity | apply Hgo; reflexivity].
     - unfold list_go_on. rewrite Hfl. destruct st as [[n|l|n]|]; cbn [val_res]; first [apply Hfin; reflexivity | apply Hgo; reflexivity].
@@ -262,8 +290,8 @@ Section Lock.
     destruct (two_tier T c k) eqn:E2.
     - (* two-tier key *)
       specialize (Hkv eq_refl).
-      destruct o as [k0 v|k0|k0|k0|k0 x|k0 x|k0|k0 v]; cbn in Hk, Hkv; try discriminate; subst k0; cbn [op_start];
-        unfold locks_op in Hh; rewrite ?Hwb, ?Hfl in Hh; cbn [andb] in Hh.
+      destruct o as [k0 v|k0|k0|k0|k0 x|k0 x|k0|k0 v|k0]; cbn in Hk, Hkv; try discriminate; subst k0; cbn [op_start];
+        unfold locks_op in Hh; rewrite ?Hwb, ?Hfl, ?Hexp in Hh; cbn [andb] in Hh.
       + rewrite (set_start_two cl w v E2). apply setpc_post; frame; auto; side.
       + rewrite (get_start_two cl w E2). destruct (tget w ct k) as [v|] eqn:EC.
         * rewrite (cview_two_hit st _ v E2 Hcv eq_refl) in *. change (RVal v) with (val_res (Some v)).
@@ -278,6 +306,12 @@ Section Lock.
         * rewrite (cview_two_hit st _ v E2 Hcv eq_refl) in *. change (RVal v) with (val_res (Some v)).
           apply (get_done_post cl w (acc w ct k) (Some v) (ORemove k x)); frame; auto; side.
         * unfold get_miss. rewrite Hwb, Hh. apply setpc_post; frame; auto; side.
+      + (* SetExpiration: read under the lock, write the same value back *)
+        unfold setexp_start. rewrite Hfi, Hwb, Hexp. fold ct. cbn [andb negb].
+        destruct (tget w ct k) as [v|] eqn:EC.
+        * apply setpc_post; frame; auto; side;
+            try (unfold cinv; cbn [set_pc held cpc cur faults ops]; rewrite Hh, Hcur; rewrite EC; repeat split; auto).
+        * apply (finish_post_exp cl w (acc w ct k) st RNotFound); frame; auto; side; try (left; reflexivity).
     - (* single-tier key: the cache tier is the register *)
       pose proof (cview_one st _ E2 Hcv) as EC.
       assert (Hfin : forall w0 r st', (fst (spec_op st o), snd (spec_op st o)) = (st', r) ->
@@ -289,8 +323,8 @@ Section Lock.
         - rewrite A4. apply cview_same.
         - intros _. apply pview_one. exact E2.
         - intros Eh. destruct (A5 Eh) as [B1 B2]. rewrite A4, EC, B1. auto. }
-      destruct o as [k0 v|k0|k0|k0|k0 x|k0 x|k0|k0 v]; cbn in Hk; subst k0; cbn [op_start];
-        unfold locks_op in Hh; rewrite ?Hwb, ?Hfl in Hh; cbn [andb] in Hh.
+      destruct o as [k0 v|k0|k0|k0|k0 x|k0 x|k0|k0 v|k0]; cbn in Hk; subst k0; cbn [op_start];
+        unfold locks_op in Hh; rewrite ?Hwb, ?Hfl, ?Hexp in Hh; cbn [andb] in Hh.
       + rewrite (set_start_one cl w v E2). apply (Hfin _ _ (Some v)); frame; auto; side.
       + rewrite (get_start_one cl w E2). rewrite EC.
         apply (get_done_post cl w (acc w ct k) st (OGet k)); frame; auto; side.
@@ -310,6 +344,12 @@ Section Lock.
         destruct st as [v0|]; cbn [spec_op] in Hfin.
         * apply (Hfin _ _ (Some v0)); frame; auto; side.
         * apply (Hfin _ _ (Some v)); frame; auto; side.
+      + (* SetExpiration: read under the lock, write the same value back *)
+        unfold setexp_start. rewrite Hfi, Hwb, Hexp. fold ct. cbn [andb negb]. rewrite EC.
+        destruct st as [v|].
+        * apply setpc_post; frame; auto; side;
+            try (unfold cinv; cbn [set_pc held cpc cur faults ops]; rewrite Hh, Hcur, EC; repeat split; auto).
+        * apply (finish_post_exp cl w (acc w ct k) None RNotFound); frame; auto; side; try (left; reflexivity).
   Qed.
 
   (* one step of a caller — a tier call or a lock acquisition — preserves its part of the invariant *)
@@ -376,6 +416,14 @@ Section Lock.
       destruct Hm as (-> & -> & Ho & Hrl & E2 & EC & EP & Est).
       rewrite (pop_fault_nil cl Hf). rewrite Est in *. change (RVal v) with (val_res (Some v)).
       apply (get_done_post cl w (wr w ct k (Some v)) (Some v) o); frame; auto; side; try (intros _ _; exact EP).
+    - (* holding: SetExpiration read done, write-back of the same value pending *)
+      destruct (cur cl) as [o|] eqn:Hcur; [|contradiction]. destruct o; try contradiction.
+      destruct Hm as (-> & -> & -> & EC & Hcv' & Hpv').
+      rewrite (pop_fault_nil cl Hf).
+      apply (finish_post_exp cl w (wr w ct k (Some v)) st ROk); frame; auto; side.
+      + right. split; [reflexivity|]. destruct (two_tier T c k) eqn:E2.
+        * rewrite (cview_two_hit st _ v E2 Hcv EC). discriminate.
+        * rewrite <- (cview_one st _ E2 Hcv), EC. discriminate.
     - (* not holding, idle *)
       destruct (cur cl) eqn:Hcur; [contradiction|].
       destruct (ops cl) as [|o r] eqn:Eo; [apply noop_post; assumption|].
